@@ -89,7 +89,8 @@ Inductive label :=
 | AckMsg (id : N) (persistent : bool)
 | Purge
 | LoaderTurn
-| PersistTick (persistent_store : bool).
+| PersistTick (persistent_store : bool)
+| LoaderRace (id : N) (persistent : bool).   (* a loader turn with a push landing inside it, see q_loader_race *)
 
 Inductive out := ONone | OPop (r : option N) | OPurge (n : Z).
 
@@ -178,6 +179,22 @@ Definition q_tick (s : qstate) (persistent_store : bool) : qstate :=
   then mkQ (mem s) (store_persist (pst s)) (tst s) (swapped s) (lastStored s) (lastMem s) (qlen s) (allids s)
   else mkQ (mem s) (pst s) (store_persist (tst s)) (swapped s) (lastStored s) (lastMem s) (qlen s) (allids s).
 
+(* The loader holds no lock while it works.  LoaderRace is the schedule in which a Push (flushed at once by a
+   tick of both stores, so that the flush window plays no part) lands after the loader's two iterations and
+   before it pushes what it loaded and writes swappedToDisk: the loader's results were computed from the state
+   BEFORE the push.  If the loader does not proceed the label is just a loader turn followed by push and ticks. *)
+Definition q_loader_race (c : qcfg) (s : qstate) (id : N) (p : bool) : qstate :=
+  let s1 := q_tick (q_tick (q_push c s id p) true) false in
+  if loader_proceeds c s then
+    let needle := loader_needle c s in
+    let pm := store_iter (pst s) (lastStored s) needle in
+    let tm := store_iter (tst s) (lastStored s) needle in
+    let ld := loader_loaded c s in
+    mkQ (mem s1 ++ ld) (pst s1) (tst s1)
+        (still_swapped (lastMem s) pm || still_swapped (lastMem s) tm)
+        (last ld (lastStored s1)) (last ld (lastMem s1)) (qlen s1) (allids s1)
+  else s1.
+
 Definition q_step (c : qcfg) (s : qstate) (lab : label) : qstate * out :=
   match lab with
   | Push id p => (q_push c s id p, ONone)
@@ -187,6 +204,7 @@ Definition q_step (c : qcfg) (s : qstate) (lab : label) : qstate * out :=
   | Purge => let '(n, s') := q_purge c s in (s', OPurge n)
   | LoaderTurn => (q_loader c s, ONone)
   | PersistTick b => (q_tick s b, ONone)
+  | LoaderRace id p => (q_loader_race c s id p, ONone)
   end.
 
 Fixpoint q_run (c : qcfg) (s : qstate) (ls : list label) : qstate * list out :=
@@ -209,6 +227,7 @@ Definition spec_step (l : list N) (lab : label) : list N * out :=
   | Purge => ([], OPurge (Z.of_nat (length l)))
   | LoaderTurn => (l, ONone)
   | PersistTick _ => (l, ONone)
+  | LoaderRace id _ => (l ++ [id], ONone)
   end.
 
 Fixpoint spec_run (l : list N) (ls : list label) : list N * list out :=
@@ -268,12 +287,13 @@ Definition ghost_step (g : ghost) (lab : label) : ghost :=
   | AckMsg id _ => mkGhost (g_next g) (g_list g) (remove1 id (g_outst g)) (g_pers g)
   | Purge => mkGhost (g_next g) [] (g_outst g) (g_pers g)
   | LoaderTurn | PersistTick _ => g
+  | LoaderRace id p => mkGhost (id + 1) (g_list g ++ [id]) (g_outst g) (if p then id :: g_pers g else g_pers g)
   end.
 
 (* a message is settled with the persistence flag it was published with (it is the same message) *)
 Definition wf_step (g : ghost) (lab : label) : bool :=
   match lab with
-  | Push id _ => g_next g <=? id
+  | Push id _ | LoaderRace id _ => g_next g <=? id
   | Requeue id p | AckMsg id p => inb id (g_outst g) && Bool.eqb p (inb id (g_pers g))
   | _ => true
   end.
@@ -291,6 +311,7 @@ Definition wf_client (ls : list label) : bool := wf_client_from ghost_init ls.
    F40    the limit is 1 (half of it is 0: the loader never proceeds)
    F24a   a loader turn proceeds while an overflowed message is still unflushed (pending add above lastMem)
    F24b   purge while swapped to disk
+   F24r   a push lands inside a proceeding loader turn (label LoaderRace: the loader holds no lock)
    ready  (scheduling, not a defect) a pop finds the ring empty although messages wait on disk: the
           broker's consumers are only woken after a push into the ring, so such a pop is not a delivery
           attempt the clients can see; the hypothesis makes pops comparable across configurations *)
@@ -302,6 +323,7 @@ Definition hyp_step (c : qcfg) (s : qstate) (lab : label) : bool :=
   | LoaderTurn => negb (loader_proceeds c s && unflushed_ahead s)
   | Purge => negb (swapped s)
   | Pop => match mem s with [] => match abs_disk s with [] => true | _ => false end | _ => true end
+  | LoaderRace _ _ => false
   | _ => true
   end.
 
